@@ -488,4 +488,31 @@ theorem wavefront_insert_weighted_energy (fs : List (Fld ℂ)) (S0 S1 K L : ℕ)
   rw [hsample i j ⟨by omega, by omega⟩ ⟨by omega, by omega⟩]
   ring
 
+/-- **the array `Wavefront.intensity` returns for a propagated wavefront sums to the input power.** The view as wavefront.py drives it
+(`wfIntensity` = `viewRun Gen.intensityWiring`: fresh zeros of the output shape, `reduce`, `intensity=True`, `field.insert`'s default
+weight — all regenerated) applied to the tilt-free output fields of `propagate_dft` on a `K × L` output array: it always returns, has
+shape `K × L`, every sample is `|Σ fields|²` (coherent sum), and when the evaluated window covers the period the total of the array
+is exactly `Σ|input field|²`. The headline clause stated on the array the caller gets, not on a sum of list sums. -/
+theorem wavefront_intensity_period_energy (fs : List (Fld ℂ)) (S0 S1 K L : ℕ) (hfit : ∀ f ∈ fs, Fits f S0 S1) (hK : 0 < K) (hL : 0 < L)
+    (hS0 : S0 ≤ K) (hS1 : S1 ≤ L) (oe : Extent) (P0 P1 : ℤ) (hoe : oe.rmin ≤ oe.rmax ∧ oe.cmin ≤ oe.cmax) (hP : 0 < P0 ∧ 0 < P1) :
+    ∃ I, wfIntensity 1 (fun z => ((Complex.normSq z : ℝ) : ℂ)) K L
+        (fs.filterMap fun f => propagateField (⟨f, 0, 0, 0, 0⟩ : TField ℂ ℝ) (1 / (K : ℝ)) (1 / (L : ℝ)) oe P0 P1) = some I ∧
+      I.s0 = K ∧ I.s1 = L ∧
+      (∀ i j : ℤ, 0 ≤ i ∧ i < K → 0 ≤ j ∧ j < L → I.get i j =
+        ((Complex.normSq ((fs.map fun f => embO (propagateField (⟨f, 0, 0, 0, 0⟩ : TField ℂ ℝ) (1 / (K : ℝ)) (1 / (L : ℝ)) oe P0 P1)
+            (i - (K : ℤ) / 2) (j - (L : ℤ) / 2)).sum) : ℝ) : ℂ)) ∧
+      ((∀ p ∈ periodBox K L, (oe.inb p.1 p.2 && (propExtent P0 P1 0 0).inb p.1 p.2) = true) →
+        ∑ i ∈ range K, ∑ j ∈ range L, I.get i j = ((arrSum (intensity (R := ℝ) (embedAll fs S0 S1)) : ℝ) : ℂ)) := by
+  -- `Wavefront.intensity` is `Wavefront.insert` into fresh zeros with weight 1: both wirings regenerated, the bridge is definitional
+  have hv : ∀ data : List (Fld ℂ), wfIntensity 1 (fun z : ℂ => ((Complex.normSq z : ℝ) : ℂ)) K L data
+      = viewRun Gen.insertWiring 1 (fun z : ℂ => ((Complex.normSq z : ℝ) : ℂ)) data (zerosArr K L) 1 := fun _ => rfl
+  obtain ⟨I, h, e0, e1, hget, htot⟩ := wavefront_insert_weighted_energy fs S0 S1 K L hfit hK hL hS0 hS1 oe P0 P1 hoe hP
+    (zerosArr K L) rfl rfl 1
+  refine ⟨I, by rw [hv]; exact h, e0, e1, ?_, ?_⟩
+  · intro i j hi hj
+    rw [hget i j hi hj]; simp [zerosArr]
+  · intro hcover
+    have := htot hcover
+    simpa [zerosArr] using this
+
 end Lentil.C05
